@@ -88,6 +88,7 @@ def run(P, C, tier):
     C.rule("R1", "last-writer-wins is the strict lexicographic order on (mdate, signature): exhaustive over the 9 orderings")
     C.rule("R2", "the decision reads nothing else of the two versions (every branch between the lookup and the outcome is one of the classified comparisons)")
     C.rule("R3", "rows absent locally are always fetched; the comparison is made against the stored row with the same id")
+    C.rule("R5", "in the history comparison every remote (day, entity) whose daily hash differs from the local one, or that is unknown locally, is exchanged: the only way to skip synchronise_day is the equal-hash edge")
     C.rule("R4", "the version that is stored is the version that won the comparison: the fetched row's (mdate, signature) is checked against the stored version (or the advertised identifier) before it replaces it")
     try:
         b = P.body("node::Node::filter_existing")
@@ -187,3 +188,45 @@ def run(P, C, tier):
              "then replaces the newer stored row (the last-writer-wins order of R1 is bypassed)")
     except mir.MissingAnchor as e:
         C.anchor_missing("R4", "synchronise_day", e)
+
+    # ---- R5: which days are exchanged
+    try:
+        sh = P.body("LocalPeerService::synchronise_history::{closure#0}")
+        C.saw(sh)
+        days = [bi for bi, t in sh.calls_to(r"LocalPeerService::synchronise_day$")]
+        hdr = None
+        for bi, t in sh.live_calls():
+            if "d:ForLoop" in t["at"][1] and callee_name(t).endswith("::next"):
+                it = mir.strip(sh.call_args(bi)[0])
+                srcs = " ".join(term_str(x) for x in sh.var_defs(it)) if it[0] == "var" else term_str(it)
+                if "remote_log" in srcs and all(sh.dominates(bi, d) for d in days):
+                    hdr = bi
+        ok = hdr is not None and len(days) >= 3
+        det = "loop over the remote log not found"
+        if ok:
+            re_ = mir.result_edges(sh, hdr)
+            entry = re_["ok"] if re_ else None
+            skip = set()
+            for sb in sorted(sh.live_blocks()):
+                tt = sh.blocks[sb]["t"]
+                if tt["k"] != "switch":
+                    continue
+                term = sh.switch_term(sb, expand_vars=False)
+                atom, _ = mir.cond_atoms(term, [0])
+                if atom[0] == "call" and atom[1].endswith("::eq") and len(atom[2]) == 2:
+                    ps = sorted(field_path(x) for x in atom[2])
+                    if ps == ["local_log.daily_hash", "remote.daily_hash"]:
+                        for tg, vals in rights.switch_edges(sh, sb):
+                            if mir.cond_atoms(term, vals)[1] is True:
+                                skip.add((sb, tg))
+            r = sh.reachable(entry, avoid_blocks=set(days), avoid_edges=skip) if entry is not None else {hdr}
+            ok = hdr not in r and bool(skip)
+            det = "from the start of an iteration over the remote log, the next iteration is reachable without synchronise_day only through `local.daily_hash == remote.daily_hash`: %s (%d exchange sites)" % (ok, len(days))
+            for d in days:
+                a = sh.call_args(d)
+                ps = [field_path(x) for x in a]
+                okd = "room_id" in ps and any(p.endswith("remote.entity") for p in ps) and any(p.endswith("remote.date") for p in ps)
+                C.ob("R5", "exchange-args#%d" % days.index(d), okd, sh.loc(d), "synchronise_day(room_id, remote.entity, remote.date): %s" % ps[:3])
+        C.ob("R5", "differing-days-exchanged", ok, sh.loc(hdr) if hdr is not None else sh.loc(), det)
+    except mir.MissingAnchor as e:
+        C.anchor_missing("R5", "synchronise_history", e)
